@@ -174,6 +174,12 @@ def lattices(ctx):
     out.append(("tiny", [(a, b) for a in tiny for b in tiny],
                 [((0.0, 0.0), (3 * unit, 3 * unit)), ((0.0, unit), (3 * unit, 2 * unit)),
                  ((unit, 0.0), (unit, 3 * unit))]))
+    # ... and in units of 2^600 and 2^-600: every coordinate is an ordinary finite float, but
+    # the *product* of two of them is not (a formula that multiplies before it divides)
+    for name, unit in (("vast", 2.0 ** 600), ("minute", 2.0 ** -600)):
+        pts = [(x * unit, y * unit) for x, y in points]
+        out.append((name, [(a, b) for a in pts for b in pts],
+                    [((0.0, 0.0), (3 * unit, 3 * unit)), ((0.0, unit), (3 * unit, 2 * unit))]))
     # seed-derived extra rectangle on the integer lattice (still enumerated completely)
     rnd = core.seeded_ints(ctx.seed, "c08.rect", 4, 3, signed=False)
     x_a, x_b = sorted((rnd[0] % 6 - 1, rnd[1] % 6 - 1))
@@ -225,7 +231,7 @@ def run(ctx):
         "rule": "all segments with both endpoints on an 8x8 lattice (4096 per rectangle: every "
                 "region pair, grazing, vertical/horizontal/zero-length) x rectangles incl. zero-"
                 "height, zero-width and point; the same lattice in tenths, shifted by 1e6 and "
-                "scaled by 1e-3 and by 2^-40; a seed-derived extra rectangle; thorough: all 225 rectangles with "
+                "scaled by 1e-3, by 2^-40 and by 2^600 / 2^-600; a seed-derived extra rectangle; thorough: all 225 rectangles with "
                 "corners on a 5x5 sub-lattice and all 100 on four tenths marks; non-trivial = the exact inside "
                 "part is a proper sub-segment (clipping shortened it); all cases distinct",
         "samples": core.rotate(part.samples, ctx.seed, 4),
